@@ -358,7 +358,7 @@ def run_tasks(tasks, prop, tier, seed, nproc=None):
 
 
 def write_replay(prop, obligation, native_key, inputs, solver_output, extra=None):
-    d = os.path.join(VERIF, "replays", prop)
+    d = os.path.join(os.environ.get("VERIF_REPLAY_DIR") or os.path.join(VERIF, "replays"), prop)
     os.makedirs(d, exist_ok=True)
     body = {"property": prop, "obligation": obligation, "native": native_key, "inputs": inputs,
             "solver_output": solver_output}
@@ -659,8 +659,11 @@ def run_check(prop, module, tier, seed):
     ev = {"property_id": prop, "tier": tier, "seed": seed, "level": level, "coverage": cov,
           "assumptions": meta.get("assumptions", []) + lib_docs + sorted(set(notes)),
           "wall_s": round(wall, 2), "violations": len(violations)}
-    os.makedirs(os.path.join(VERIF, "evidence"), exist_ok=True)
-    with open(os.path.join(VERIF, "evidence", "%s.json" % prop), "w") as fh:
+    # experiments against scratch copies of the repository (SPECTRUM_REPO=...) may redirect their output so that the
+    # committed evidence, which must come from /repo itself, is not overwritten
+    evdir = os.environ.get("VERIF_EVIDENCE_DIR") or os.path.join(VERIF, "evidence")
+    os.makedirs(evdir, exist_ok=True)
+    with open(os.path.join(evdir, "%s.json" % prop), "w") as fh:
         json.dump(ev, fh, indent=1, default=str)
 
     print("%s tier=%s: %d obligations, %d proved, %d refuted (%d known), %d undecided, %d errors; %.1fs wall, %.1fs solver"
